@@ -185,6 +185,11 @@ def endings(code, status):
         ('syntax error in a later phase than all others', conf + act + '[cleanup]\nfile\n', {}, [], ('access', 'SYNTAX_ERROR')),
         ('missing included file', conf + act + '[assert]\nincluding missing-file.xly\n', {}, [], ('access', 'FILE_ACCESS_ERROR')),
         ('failing preprocessor', conf + act, {}, ['--preprocessor', 'false'], ('access', 'PRE_PROCESS_ERROR')),
+        # regression of FIX-C02-1: the identifier of an error in the suite file given with --suite follows the output mode
+        ('syntax error in the suite file given with --suite', conf + act, {'bad.suite': '[cases]\n[nonsense\n'},
+         ['--suite', 'bad.suite'], ('access', 'SYNTAX_ERROR')),
+        ('syntax error in a [setup] instruction of the suite file given with --suite', conf + act,
+         {'bad2.suite': '[setup]\nno-such-instruction x\n'}, ['--suite', 'bad2.suite'], ('access', 'SYNTAX_ERROR')),
     ]
     if status != 'SKIP':
         es += [
